@@ -101,9 +101,13 @@ class NPShim(object):
     def __getattr__(self, k):
         f = getattr(_np, k)
         if callable(f) and not isinstance(f, type) and not isinstance(f, _np.ufunc):
+            sym_alloc = self._sym and k in _FLOAT_TO_SYM
+
             def wrapped(*a, **kw):
                 r = f(*a, **kw)
                 if isinstance(r, _np.ndarray):
+                    if sym_alloc and r.dtype.kind == "f":
+                        return float_to_sym(r)
                     return as_sarr(r)
                 if isinstance(r, tuple):
                     return tuple(as_sarr(x) for x in r)
@@ -315,6 +319,19 @@ class NPShim(object):
         if isinstance(a, S):
             return round(float(a), decimals)
         return _np.round(a, decimals)
+
+
+_FLOAT_TO_SYM = {"concatenate", "append", "stack", "hstack", "vstack", "linspace", "cumsum", "cumprod", "diag", "outer", "tile", "repeat"}
+
+
+def float_to_sym(r):
+    """float ndarray -> object array of exact constants (so later in-place updates with symbolic values work)"""
+    from .sym import float_to_fraction
+    out = _np.empty(r.shape, dtype=object).view(SArr)
+    flat = out.reshape(-1)
+    for i, v in enumerate(r.reshape(-1)):
+        flat[i] = S(const(float_to_fraction(float(v))))
+    return out
 
 
 def _un(a, meth, npf, *args, **kw):
